@@ -23,9 +23,10 @@ pub enum TolKind {
     /// condition-aware: |d| <= ATOL + RTOL*max(|expected|, cond[k]) where
     /// cond[k] is the sum of absolute values of the terms of element k
     Cond(Vec<f64>),
-    /// integer result of rounding a computed quotient: where slack[k] the
-    /// quotient is within float error of a rounding tie and ±1 is accepted
-    IntSlack(Vec<bool>),
+    /// integer result of rounding computed quotients: slack[k] is the number
+    /// of roundings feeding element k whose argument is within float error of
+    /// a rounding tie; a deviation of up to slack[k] is accepted
+    IntSlack(Vec<u8>),
     /// |d| <= abs + RTOL*|expected|
     Abs(f64),
 }
